@@ -196,6 +196,25 @@ func rulesC13(c *Ctx) {
 				}
 			}
 		}
+		// the same through the builtin: failureThreshold = max(failureThreshold, 1)
+		for _, w := range sk.writesToVar(sk.Body, thr, false) {
+			if as, ok := w.(*ast.AssignStmt); ok && len(as.Rhs) == 1 {
+				if ce, isC := ast.Unparen(as.Rhs[0]).(*ast.CallExpr); isC && sk.BuiltinName(ce) == "max" && len(ce.Args) == 2 {
+					hasThr, hasOne := false, false
+					for _, a := range ce.Args {
+						if sk.ObjOf(a) == types.Object(thr) {
+							hasThr = true
+						}
+						if v, isK := sk.ConstInt(a); isK && v == 1 {
+							hasOne = true
+						}
+					}
+					if hasThr && hasOne && len(sg.GuardsAt(sg.VertexOf(w))) == 0 && sg.ReachableFrom(sg.VertexOf(w))[sg.VertexOf(goStmt)] {
+						okNorm = true
+					}
+				}
+			}
+		}
 		c.Check(okNorm, "threshold:normalised", sk, nil, "failureThreshold < 1 is normalised to 1 before the goroutine starts")
 	})
 
@@ -920,6 +939,7 @@ func rulesC14(c *Ctx) {
 			if hl.ObjOf(e) == types.Object(p) {
 				return true
 			}
+			e = hl.valueOf(e) // a local copy (opts := h.opts)
 			sel, ok := ast.Unparen(e).(*ast.SelectorExpr)
 			if !ok || hlit == nil || hl.Recv() == nil || hl.ObjOf(sel.X) != types.Object(hl.Recv()) {
 				return false
@@ -1090,6 +1110,44 @@ func rulesC14(c *Ctx) {
 					}
 				}
 			}
+			return true
+		})
+		// the same two parameters written with strconv.Quote or plain concatenation: an expression that mentions the
+		// literal "resource_metadata=" / "scope=" together with the corresponding option field
+		ast.Inspect(hl.Body, func(x ast.Node) bool {
+			e, ok := x.(ast.Expr)
+			if !ok {
+				return true
+			}
+			be, isB := e.(*ast.BinaryExpr)
+			if !isB || be.Op != token.ADD {
+				return true
+			}
+			lit := ""
+			ast.Inspect(be, func(y ast.Node) bool {
+				if ye, isE := y.(ast.Expr); isE {
+					if sv, isS := hl.ConstString(ye); isS && (strings.HasPrefix(sv, "resource_metadata=") || strings.HasPrefix(sv, "scope=")) {
+						lit = sv
+					}
+				}
+				return true
+			})
+			if lit == "" {
+				return true
+			}
+			ast.Inspect(be, func(y ast.Node) bool {
+				if sel, isSel := y.(*ast.SelectorExpr); isSel {
+					if fv, isF := hl.ObjOf(sel.Sel).(*types.Var); isF && fv.IsField() && isParam(sel.X, rb.ParamOfNamed(pA, "RequireBearerTokenOptions")) {
+						if strings.HasPrefix(lit, "resource_metadata=") && fv.Name() == "ResourceMetadataURL" {
+							src["resource_metadata"] = true
+						}
+						if strings.HasPrefix(lit, "scope=") && fv.Name() == "Scopes" {
+							src["scope"] = true
+						}
+					}
+				}
+				return true
+			})
 			return true
 		})
 		c.Check(src["resource_metadata"] && src["scope"], "middleware:challenge-parameters", hl, nil, "the challenge carries resource_metadata (from opts.ResourceMetadataURL) and scope (from opts.Scopes)")
